@@ -1,5 +1,5 @@
 use super::{NonDigitName, SafeName};
-use crate::ast::{indexes::AstType, Ast, BasicType};
+use crate::ast::{indexes::AstType, ArrayType, Ast, BasicType};
 use crate::impls::template::*;
 use crate::Result;
 
@@ -92,7 +92,14 @@ pub fn print_impl_wire_size<W: std::fmt::Write, T: FromTemplate>(
                         // If the target is opaque, it needs padding, and a
                         // length prefix adding.
                         if let BasicType::Opaque = v.target {
-                            writeln!(w, "+ pad_length(self.0.wire_size()) + 4")?;
+                            write!(w, "+ pad_length(self.0.wire_size())")?;
+
+                            // Only variable length opaques are prefixed with
+                            // their length, a fixed length opaque[N] is not.
+                            if !matches!(v.alias, ArrayType::FixedSize(..)) {
+                                write!(w, " + 4")?;
+                            }
+                            writeln!(w)?;
                         }
 
                         Ok(())
